@@ -65,6 +65,8 @@ IbanBankOutcome(e) ==
                  ELSE IF ~\E i \in M : Banks[i].name = o.name.s /\ Banks[i].short = o.short.s
                       THEN "bank-names-not-from-the-registry-entry"
                  ELSE IF o.bank_key # BankKey(s) THEN "bank-entry-of-another-key"
+                 ELSE IF o.entry_name.s # o.name.s \/ o.entry_short.s # o.short.s \/ ~o.again_same
+                      THEN "bank-names-differ-from-the-bank-entry"
                  ELSE IF cands = <<>> THEN (IF o.bic.z THEN "ok" ELSE "bic-without-candidates")
                  ELSE IF o.bic.z THEN "bic-None-although-candidates-exist"
                  ELSE IF \E j \in 1..Len(cands) : Len(cands[j]) = 8
